@@ -2,7 +2,7 @@
 //! at arbitrary points, including while TX/RX are inside the buffer. See `ecverif::microrun`.
 fn main() {
     ecverif::microrun::main_for(
-        ecverif::microrun::Profile { key: "c06m", drops: true, timeouts: true, tx_fail: true, rx_noise: true },
+        ecverif::microrun::Profile { key: "c06m", drops: true, timeouts: true, tx_fail: true, rx_noise: true, only: &[] },
         150,
         4000,
     );
